@@ -1,1 +1,194 @@
-//! In-memory, harness-controlled WebSocket (filled in with the mux harness).
+//! In-memory WebSocket whose two directions are controlled by the harness: messages the task sends
+//! are appended to `out` (the harness decides if and when they reach the peer); messages the task
+//! receives are those the harness pushed to `inb`.
+
+use penguin_mux::ws::{Message, WebSocket};
+use std::collections::VecDeque;
+use std::sync::{Arc, Mutex};
+use std::task::{Context, Poll, Waker};
+
+#[derive(Debug)]
+pub struct SimError(pub &'static str);
+impl std::fmt::Display for SimError {
+    fn fmt(&self, f: &mut std::fmt::Formatter<'_>) -> std::fmt::Result {
+        write!(f, "simulated transport error: {}", self.0)
+    }
+}
+impl std::error::Error for SimError {}
+
+fn ws_err(what: &'static str) -> penguin_mux::Error {
+    penguin_mux::Error::WebSocket(Box::new(SimError(what)))
+}
+
+/// One item the source yields.
+#[derive(Debug, Clone)]
+pub enum In {
+    Msg(Message),
+    Err,
+}
+
+#[derive(Debug, Default)]
+pub struct WsState {
+    /// Delivered by the harness, not yet read by the task.
+    pub inb: VecDeque<In>,
+    /// The source has ended (`poll_next` yields `None` once `inb` is empty).
+    pub in_eof: bool,
+    pub in_waker: Option<Waker>,
+    /// Everything the task handed to the sink, in order.
+    pub out: Vec<Message>,
+    /// Index into `out` at which `poll_close` was called (the Close frame), if it was.
+    pub out_closed_at: Option<usize>,
+    /// The sink fails from now on.
+    pub sink_err: bool,
+    /// The sink is not ready (back-pressure) until the harness says so.
+    pub sink_blocked: bool,
+    pub sink_waker: Option<Waker>,
+    pub polls_next: u64,
+}
+
+#[derive(Debug, Clone, Default)]
+pub struct SimWs(pub Arc<Mutex<WsState>>);
+
+impl SimWs {
+    #[must_use]
+    pub fn new() -> Self {
+        Self::default()
+    }
+    /// Harness side: make a message available to the task.
+    pub fn deliver(&self, m: In) {
+        let mut s = self.0.lock().expect("ws");
+        s.inb.push_back(m);
+        if let Some(w) = s.in_waker.take() {
+            w.wake();
+        }
+    }
+    pub fn end_source(&self) {
+        let mut s = self.0.lock().expect("ws");
+        s.in_eof = true;
+        if let Some(w) = s.in_waker.take() {
+            w.wake();
+        }
+    }
+    pub fn fail_sink(&self) {
+        let mut s = self.0.lock().expect("ws");
+        s.sink_err = true;
+        if let Some(w) = s.sink_waker.take() {
+            w.wake();
+        }
+    }
+    pub fn block_sink(&self, blocked: bool) {
+        let mut s = self.0.lock().expect("ws");
+        s.sink_blocked = blocked;
+        if !blocked {
+            if let Some(w) = s.sink_waker.take() {
+                w.wake();
+            }
+        }
+    }
+    /// Harness side: take the messages sent since the last call.
+    pub fn take_out(&self, from: usize) -> (Vec<Message>, Option<usize>) {
+        let s = self.0.lock().expect("ws");
+        (s.out[from.min(s.out.len())..].to_vec(), s.out_closed_at)
+    }
+}
+
+impl WebSocket for SimWs {
+    fn poll_ready_unpin(&mut self, cx: &mut Context<'_>) -> Poll<Result<(), penguin_mux::Error>> {
+        let mut s = self.0.lock().expect("ws");
+        if s.sink_err {
+            return Poll::Ready(Err(ws_err("sink")));
+        }
+        if s.sink_blocked {
+            s.sink_waker = Some(cx.waker().clone());
+            return Poll::Pending;
+        }
+        Poll::Ready(Ok(()))
+    }
+    fn start_send_unpin(&mut self, item: Message) -> Result<(), penguin_mux::Error> {
+        let mut s = self.0.lock().expect("ws");
+        if s.sink_err {
+            return Err(ws_err("sink"));
+        }
+        s.out.push(item);
+        Ok(())
+    }
+    fn poll_flush_unpin(&mut self, _cx: &mut Context<'_>) -> Poll<Result<(), penguin_mux::Error>> {
+        let s = self.0.lock().expect("ws");
+        if s.sink_err { Poll::Ready(Err(ws_err("sink"))) } else { Poll::Ready(Ok(())) }
+    }
+    fn poll_close_unpin(&mut self, _cx: &mut Context<'_>) -> Poll<Result<(), penguin_mux::Error>> {
+        let mut s = self.0.lock().expect("ws");
+        if s.sink_err {
+            return Poll::Ready(Err(ws_err("sink")));
+        }
+        if s.out_closed_at.is_none() {
+            s.out_closed_at = Some(s.out.len());
+        }
+        Poll::Ready(Ok(()))
+    }
+    fn poll_next_unpin(&mut self, cx: &mut Context<'_>) -> Poll<Option<Result<Message, penguin_mux::Error>>> {
+        let mut s = self.0.lock().expect("ws");
+        s.polls_next += 1;
+        match s.inb.pop_front() {
+            Some(In::Msg(m)) => Poll::Ready(Some(Ok(m))),
+            Some(In::Err) => Poll::Ready(Some(Err(ws_err("source")))),
+            None => {
+                if s.in_eof {
+                    Poll::Ready(None)
+                } else {
+                    s.in_waker = Some(cx.waker().clone());
+                    Poll::Pending
+                }
+            }
+        }
+    }
+}
+
+/// Scripted RNG: `next_u32` returns the scripted values in order, then a deterministic fallback
+/// sequence (so the id generator always terminates).
+#[derive(Debug, Clone)]
+pub struct ScriptRng {
+    pub script: Arc<Mutex<VecDeque<u32>>>,
+    pub fallback: u64,
+    pub drawn: Arc<Mutex<Vec<u32>>>,
+}
+
+impl ScriptRng {
+    #[must_use]
+    pub fn new() -> Self {
+        Self { script: Arc::default(), fallback: 0x1234_5678_9abc_def1, drawn: Arc::default() }
+    }
+    pub fn push(&self, v: u32) {
+        self.script.lock().expect("rng").push_back(v);
+    }
+}
+
+impl Default for ScriptRng {
+    fn default() -> Self {
+        Self::new()
+    }
+}
+
+impl rand::TryRng for ScriptRng {
+    type Error = core::convert::Infallible;
+    fn try_next_u32(&mut self) -> Result<u32, Self::Error> {
+        let v = self.script.lock().expect("rng").pop_front().unwrap_or_else(|| {
+            self.fallback = self.fallback.wrapping_mul(6364136223846793005).wrapping_add(1442695040888963407);
+            (self.fallback >> 33) as u32 | 0x4000_0000
+        });
+        self.drawn.lock().expect("rng").push(v);
+        Ok(v)
+    }
+    fn try_next_u64(&mut self) -> Result<u64, Self::Error> {
+        let a = u64::from(self.try_next_u32()?);
+        let b = u64::from(self.try_next_u32()?);
+        Ok(a << 32 | b)
+    }
+    fn try_fill_bytes(&mut self, dst: &mut [u8]) -> Result<(), Self::Error> {
+        for c in dst.chunks_mut(4) {
+            let v = self.try_next_u32()?.to_le_bytes();
+            c.copy_from_slice(&v[..c.len()]);
+        }
+        Ok(())
+    }
+}
